@@ -765,6 +765,118 @@ def _value_scope(fi, fn):
 
 
 # ---------------------------------------------------------------------------
+# delegation of the reader / writer to private helpers that the reference does
+# not have (candidate for the front end, sa/inline.py)
+
+_DERIVED = {}
+
+
+def _inline_tail_calls(fn, target, done):
+    """`return h(args)` with h a followed helper: the statement is replaced by
+    the parameter bindings and the helper's body VERBATIM (its returns are the
+    caller's returns: the call is the whole value of a return statement, so no
+    return of the helper has to be rewritten - also not one that is followed by
+    further statements of the helper, which sa/inline.py refuses because it
+    would need tail duplication), plus `return None` when the body can fall off
+    its end.  Same behaviour as the call for every input."""
+    from .. import inline
+    changed = [False]
+
+    def block(stmts):
+        out = []
+        for s in stmts:
+            if isinstance(s, ast.Return) and isinstance(s.value, ast.Call):
+                t = target(s.value)
+                if t is not None:
+                    helper, is_method, recv = t
+                    try:
+                        caller_locals = inline._assigned_names(fn) | set(params(fn))
+                        prelude, body, _tag = inline.expand_call(helper, s.value, caller_locals, is_method, recv)
+                    except inline._Refuse:
+                        out.append(s)
+                        continue
+                    if not inline._ends(body):
+                        body = body + [ast.copy_location(ast.Return(value=None), s)]
+                    out.extend(prelude + body)
+                    done.append(helper.name)
+                    changed[0] = True
+                    continue
+            if not isinstance(s, (ast.FunctionDef, ast.AsyncFunctionDef, ast.ClassDef)):
+                for f in ('body', 'orelse', 'finalbody'):
+                    b = getattr(s, f, None)
+                    if isinstance(b, list) and b and isinstance(b[0], ast.stmt):
+                        setattr(s, f, block(b))
+                for h in getattr(s, 'handlers', None) or []:
+                    h.body = block(h.body)
+            out.append(s)
+        return out
+    fn.body = block(fn.body)
+    return changed[0]
+
+
+def _follow_delegates(ck, mod, quals):
+    """The module with, in the functions `quals`, the calls to PRIVATE helpers
+    that the reference snapshot does not have (module-level `_h(..)`, methods
+    `self._h(..)`) replaced by the helpers' bodies - what the front end does
+    (sa/inline.py), extended to tail delegation `return self._h(index)` of
+    helpers with early returns, and applied repeatedly (a new helper calling a
+    new helper).  A derived Module (deep copy: the analysed module itself is not
+    touched); the module itself when there is nothing to follow.  What was
+    followed is recorded in the evidence and counted as analysed."""
+    if id(mod) in _DERIVED:
+        return _DERIVED[id(mod)][1]
+    derived = mod
+    try:
+        import os
+        from .. import inline, rename
+        from ..core import Module
+        ref_path = os.path.join(rename.REFERENCE, mod.rel)
+        followed = {}
+        if os.path.exists(ref_path):
+            with open(ref_path, encoding='utf-8') as fh:
+                rtree = ast.parse(fh.read())
+            hf, hm = inline.new_private_helpers(mod.tree, rtree)
+            todo = []
+            for q in quals:
+                f = mod.functions.get(q)
+                cls = q.split('.')[0] if '.' in q else None
+                if f is not None and (hf or hm) and any(inline.Inliner(hf, hm, cls=cls)._target(c) is not None for c in calls_in(f)):
+                    todo.append(q)
+            if todo:
+                tree = _copy.deepcopy(mod.tree)
+                tmp = Module(mod.rel, mod.src, tree, mod.kind)
+                for q in todo:
+                    f = tmp.functions[q]
+                    cls = q.split('.')[0] if '.' in q else None
+                    done = []
+                    for _ in range(4):
+                        inl = inline.Inliner(hf, hm, cls=cls)
+                        a = _inline_tail_calls(f, inl._target, done)
+                        b = inl.run(f)
+                        done += inl.done
+                        if not (a or b):
+                            break
+                    if done:
+                        followed[q] = sorted(set(done))
+                if followed:
+                    ast.fix_missing_locations(tree)
+                    derived = Module(mod.rel, mod.src, tree, mod.kind)
+                    ck.notes.setdefault('C05.followed-helpers', {}).update(followed)
+                    for q, hs in followed.items():
+                        cls = q.split('.')[0] if '.' in q else None
+                        for h in hs:
+                            for name in ((cls + '.' + h) if cls else h, h):
+                                if name in mod.functions:
+                                    ck.analysed(mod, name)
+                                    break
+    except Exception as e:            # following helpers must never break the check: the rules then see the calls as they are
+        derived = mod
+        ck.notes.setdefault('C05.followed-helpers', {})['error'] = repr(e)
+    _DERIVED[id(mod)] = (mod, derived)
+    return derived
+
+
+# ---------------------------------------------------------------------------
 # D1
 
 def d1_bounds(ck, mod):
@@ -4510,12 +4622,14 @@ def check(ck):
                                                         (RA, 'where'), (RA, '_get_iis_from_list'), (RA, '_slice_to_list'),
                                                         (RA, '_get_iis_from_slices')], exempt_self_methods=False)
     d1_bounds(ck, mod)
-    d1_call_sites(ck, mod)
+    # reader and writer as they are after following their delegation to new private helpers
+    rw = _follow_delegates(ck, mod, [CLS + '.__getitem__', CLS + '.__setitem__'])
+    d1_call_sites(ck, rw)
     d1_negatives(ck, mod)
     d1_inplace_cells(ck, mod)
     d2_slices(ck, mod)
-    d3_dispatch(ck, mod)
-    d3_row_count(ck, mod)
+    d3_dispatch(ck, rw)
+    d3_row_count(ck, rw)
     d4_index_space(ck, mod)
     d5_where(ck, mod)
     d5_index_dtype(ck, mod)
